@@ -20,6 +20,15 @@ Theorem c12_atomic_ops : forall (f : fs) (ops : list op) (g : fs) (e : N),
 Proof. exact apply_ops_atomic. Qed.
 Print Assumptions c12_atomic_ops.
 
+(* the whole picture after a failure, directories included: the workspace is the old one (every
+   file AND every directory still there, unchanged) plus possibly directories where there was nothing *)
+Theorem c12_failed_is_old_plus_empty_dirs : forall (f : fs) (input : list N) (g : fs) (e : N),
+  fs_wf f -> apply_patch true [] f input = Failed g e ->
+  (forall q n, lookup f q = Some n -> lookup g q = Some n) /\
+  (forall q, lookup f q = None -> lookup g q = None \/ lookup g q = Some Dir).
+Proof. exact apply_patch_failed_ext. Qed.
+Print Assumptions c12_failed_is_old_plus_empty_dirs.
+
 (* what the revert does in general: under the invariant C between operations, reverting the undo
    list u on state f yields, at every path, the first-seen recorded content (or the current one) *)
 Theorem c12_revert_spec : forall (u : list (list N * option bytes)) (f : fs),
